@@ -160,6 +160,8 @@ void registerIdleHook(const char *name, IdleHookFn fn);
 // yield hook of the atomic shim (engine S)
 extern void (*g_yieldHook)(const void *addr, int kind);
 
+// observer for engine S: called when a caller outside StoreMap.cc (MemStore, rock) enters Ipc::StoreMap::closeForUpdating(); no-op unless set
+extern void (*closeForUpdatingHook)();
 } // namespace vsim
 
 extern "C" int verif_store_rebuilding();
